@@ -235,6 +235,8 @@ def parse_tsv(text):
         name, spans = row.split("\t", 1)
         couples = []
         for c in spans.split(", "):
+            if not c.strip():
+                continue  # a label listed without any span
             a, _, b = c.partition("-")
             couples.append((int(a), int(b or a)))
         labels.append((name, couples))
@@ -354,8 +356,13 @@ def run(ctx):
             sources.append(src)
         for i, src in enumerate(sources):
             try:
-                lines = fe.flat_lines(fa.flatten_ast(ast.parse(src)))
+                tree0 = ast.parse(src)
             except (SyntaxError, ValueError):
+                continue
+            try:
+                lines = fe.flat_lines(fa.flatten_ast(tree0))
+            except Exception as exc:  # reported with this very source by the end-to-end stream below
+                ctx.dist(f"matcher:programs: flatten_ast raised {type(exc).__name__}")
                 continue
             compare_lines("matcher:programs", lines, hash(src))
         marks["matcher:programs"] = round(ctx.elapsed() - t0, 1)
